@@ -45,7 +45,29 @@ def dumps(o, **kw):
 
 # --------------------------------------------------------------------------- worker
 
+def _trace_reach():
+    """which functions of aioftp the workload really entered (sys.monitoring PY_START, disabled after the first hit
+    of each code object, so the cost is negligible)"""
+    reached = set()
+    try:
+        mon = sys.monitoring
+        tool = 4
+        mon.use_tool_id(tool, "aioftp-verif-reach")
+
+        def on_start(code, offset):
+            fn = code.co_filename
+            if "aioftp" in fn and os.sep + "harness" + os.sep not in fn:
+                reached.add(os.path.basename(fn) + ":" + code.co_qualname)
+            return mon.DISABLE
+        mon.register_callback(tool, mon.events.PY_START, on_start)
+        mon.set_events(tool, mon.events.PY_START)
+    except Exception:
+        return None
+    return reached
+
+
 def worker_main(pid, casefile, outfile):
+    reached = _trace_reach()
     mod = load_check(pid)
     with open(casefile) as f:
         cases = json.load(f)
@@ -63,6 +85,8 @@ def worker_main(pid, casefile, outfile):
             res["wall"] = round(time.time() - t0, 4)
             out.write(dumps(res) + "\n")
             out.flush()
+        if reached is not None:
+            out.write(dumps({"_reached": sorted(reached)}) + "\n")
     return 0
 
 
@@ -89,6 +113,7 @@ def run_check(pid, tier, seed, jobs=None, verbose=False):
     tmp = tempfile.mkdtemp(prefix="aioftp-verif-run-")
     inconclusive = []
     results = []
+    reached_all = set()
     try:
         procs = []
         for j in range(jobs):
@@ -119,7 +144,11 @@ def run_check(pid, tier, seed, jobs=None, verbose=False):
                     for line in f:
                         line = line.strip()
                         if line:
-                            got.append(json.loads(line))
+                            rec = json.loads(line)
+                            if "_reached" in rec:
+                                reached_all.update(rec["_reached"])
+                            else:
+                                got.append(rec)
             results += got
             if p.returncode != 0 or len(got) != n:
                 tail = (out or b"").decode("utf-8", "replace")[-2000:]
@@ -157,6 +186,8 @@ def run_check(pid, tier, seed, jobs=None, verbose=False):
                     if x not in extra[k] and len(extra[k]) < 64:
                         extra[k].append(x)
 
+    anchors = getattr(mod, "ANCHOR_FUNCTIONS", [])
+    anchors_missed = [fn for fn in anchors if fn not in reached_all] if reached_all else []
     required = getattr(mod, "REQUIRED_MONITORS", [])
     for name in required:
         if monitors.get(name, 0) == 0:
@@ -205,6 +236,10 @@ def run_check(pid, tier, seed, jobs=None, verbose=False):
         "known_findings_matched": sorted(printed_known),
         "inconclusive": inconclusive[:5],
         "jobs": jobs,
+        "anchor_functions_entered": [fn for fn in anchors if fn in reached_all],
+        "anchor_functions_not_entered": anchors_missed,
+        "aioftp_functions_entered": len(reached_all),
+        "aioftp_functions_entered_list": sorted(reached_all)[:250],
     }
     cov.update(extra)
     if hasattr(mod, "explain"):
